@@ -7,13 +7,14 @@ LEAN_MODULES = ['TboxModel.C13.Props']
 EXE = 'c13'
 THEOREMS = ['Tbox.C13.' + t for t in [
     'C13_scanner_table', 'C13_scanner_decodes',
-    'C13_editor_refines', 'C13_cursor_in_line',
+    'C13_scanner_chars_plain',
+    'C13_editor_refines', 'C13_cursor_in_line', 'C13_screen_matches_editor',
     'C13_one_prompt_per_enter',
     'C13_history', 'C13_history_never_stored', 'C13_history_rerun',
     'C13_total', 'C13_total_legacy_counterexample',
     'C13_sessions_independent', 'C13_teardown_drops_queued',
     'C13_telnet_resumable', 'C13_telnet_in_bounds', 'C13_telnet_legacy_counterexample',
-    'C13_split_unbalanced', 'C13_split_words', 'C13_split_quoted',
+    'C13_split_unbalanced', 'C13_split_words', 'C13_split_quoted', 'C13_split_roundtrip',
 ]]
 
 SOURCES = [
@@ -32,6 +33,7 @@ SOURCES = [
     'modules/network/sockaddr.cpp'] + vlib.EVENT_SOURCES + vlib.BASE_SOURCES
 SOURCES = list(dict.fromkeys(SOURCES))      # BASE_SOURCES may already contain some of them
 FLAVOUR = 'asan'
+LIBS = ['-ldl']
 BATCH = 100
 BATCH_TIMEOUT = 120
 
@@ -103,7 +105,11 @@ KEYS = {'bs': [b'\x7f', b'\x08'], 'up': [b'\x1b[A'], 'down': [b'\x1b[B'], 'right
 NAMES = ['a', 'b', 'foo', 'd1', 'd2', 'x y', 'zz', 'ls2', 'f', '..x', 'A']
 INT_TEXTS = ['0', '1', '2', '5', '19', '20', '21', '-1', '-2', '-20', '-21', '-0', '+1', '007', '99999999999', '-99999999999',
              '2147483647', '2147483648', '-2147483648', '-2147483649', '9223372036854775807', '9223372036854775808',
-             '', '-', '+', 'x', '1x', '0x1', '!', '!!', '!1', ' 3', '1 ', '--1', '+-1', '3;', '18446744073709551616']
+             '', '-', '+', 'x', '1x', '0x1', '!', '!!', '!1', ' 3', '1 ', '--1', '+-1', '3;', '18446744073709551616',
+             # both sides of 2^15 / 2^16 / 2^31 / 2^32 / 2^63 / 2^64 (the index is an int, compared as size_t, negated in 64 bits)
+             '32767', '32768', '-32768', '-32769', '65535', '65536', '-65536', '2147483646', '-2147483647', '4294967295', '4294967296',
+             '4294967297', '-4294967295', '-4294967296', '4294967315', '-4294967297', '-9223372036854775808', '-9223372036854775809',
+             '18446744073709551615', '18446744073709551617', '-18446744073709551615', '00000000000000000000000000000000000001', '-00000000000000000000019']
 
 
 def type_text(rng, text, edits):
@@ -281,13 +287,19 @@ def telnet_stream(rng):
         r = rng.random()
         if r < 0.35: parts.append(bytes(rng.randrange(0, 255) for _ in range(rng.randrange(1, 12))))
         elif r < 0.50: parts.append(bytes([255, rng.choice([251, 252, 253, 254]), rng.choice([1, 1, 3, 24, 31, 32, 255, 0])]))
-        elif r < 0.62: parts.append(bytes([255, 250, 31, rng.randrange(256), rng.randrange(255), rng.randrange(256), rng.randrange(255), 255, 240]))
+        elif r < 0.56: parts.append(bytes([255, 250, 31, rng.randrange(256), rng.randrange(255), rng.randrange(256), rng.randrange(255), 255, 240]))
+        elif r < 0.62:   # window sizes on both sides of 2^8 / 2^15 / 2^16 (uint16_t from two bytes)
+            wv, hv = rng.choice(NAWS_EDGE), rng.choice(NAWS_EDGE)
+            parts.append(bytes([255, 250, 31, wv >> 8, wv & 255, hv >> 8, hv & 255, 255, 240]))
         elif r < 0.78:   # short / odd sub-negotiations
             pl = bytes(rng.randrange(255) for _ in range(rng.choice([0, 1, 2, 3, 5])))
             parts.append(bytes([255, 250, rng.choice([31, 31, 24, 32])]) + pl + bytes([255, rng.choice([240, 240, 0, 255])]))
         elif r < 0.90: parts.append(bytes([255, rng.choice([241, 236, 240, 249, 255, 0, 65])]))
         else: parts.append(rng.choice([b'\xff', b'\xff\xfa', b'\xff\xfa\x1f', b'\xff\xfd', b'\xff\xfa\x1f\x00\x50']))
     return b''.join(parts)
+
+
+NAWS_EDGE = [0, 1, 127, 128, 254, 256, 257, 32766, 32767, 32768, 32769, 65278, 65024]      # (no byte 0xff: that ends the sub-negotiation)
 
 
 def cut(rng, data):
@@ -365,9 +377,11 @@ def gen_multi(rng, nsteps):
         r = rng.random()
         if r < 0.15: ops.append('pass')
         elif r < 0.20 and 4 <= k < 7: ops.append('xdisc %d' % k)
-        elif r < 0.23 and k < 4: ops += ['sel %d' % k, 'close']
-        elif r < 0.25 and k == 7: ops.append('sstop')
-        elif r < 0.27: ops.append(rng.choice(['teardown', 'passdown', 'passdown'])); active = []
+        elif r < 0.26 and 4 <= k < 7: ops.append('wfault %d %d' % (k, rng.choice([0, 1, 1, 2, 2, 3])))
+        elif r < 0.29 and 4 <= k < 7 and 7 not in active: ops.append('xclose %d' % k)
+        elif r < 0.32 and k < 4: ops += ['sel %d' % k, 'close'] + (['open %d' % rng.randrange(4)] if rng.random() < 0.6 else [])
+        elif r < 0.34 and k == 7: ops.append('sstop')
+        elif r < 0.36: ops.append(rng.choice(['teardown', 'passdown', 'passdown'])); active = []
     ops.append('pass')
     for k in active:      # every session shows its own history at the end
         h = hx('history\r\n')
@@ -394,6 +408,52 @@ def gen_builtin(rng):
         ops.append('recv ' + hx(line + '\r\n'))
         if rng.random() < 0.1: ops.append('rmnode %d' % rng.randrange(1, 6))
     ops.append('recv ' + hx('pwd;tree;ls\r\n'))
+    return ops
+
+
+def gen_reuse(rng):
+    """many sessions created and destroyed on few slots: the pooled SessionContext and the cabinet cell are reused, exit tasks
+    and handlers' endSession tasks of dead sessions are still queued when the successor is opened (stale tokens)"""
+    ops = ['mkfunc e', 'mkfunc', 'mount 0 1 ' + hx('e'), 'mount 0 2 ' + hx('p')]
+    for rnd in range(rng.choice([3, 6, 12, 30])):
+        k = rng.choice([0, 0, 1, 4, 4, 5, 6])
+        line = rng.choice(['exit', 'exit;exit', 'p %d;exit' % rnd, 'e', 'e;exit', 'quit'])
+        if k < 4:
+            ops += ['sel %d' % k, 'open %d' % rng.choice([0, 1, 2]), 'recv ' + hx('p %d\r\n' % rnd), 'recv ' + hx(line + '\r\n')]
+            how = rng.random()
+            if how < 0.4: ops += ['close', 'open %d' % rng.choice([0, 1]), 'recv ' + hx('p new%d\r\n' % rnd), 'pass', 'recv ' + hx('history\r\n'), 'close']
+            elif how < 0.8: ops += ['pass']
+            else: ops += ['close', 'pass']
+        else:
+            ops += ['xconn %d' % k]
+            if rng.random() < 0.3: ops.append('wfault %d %d' % (k, rng.choice([1, 2, 3])))
+            ops += ['xrecv %d %s' % (k, hx('p %d\r\n' % rnd)), 'xrecv %d %s' % (k, hx(line + '\r\n'))]
+            how = rng.random()
+            if how < 0.3: ops += ['xdisc %d' % k, 'xconn %d' % k, 'xrecv %d %s' % (k, hx('p new%d\r\n' % rnd)), 'pass', 'xrecv %d %s' % (k, hx('history\r\n')), 'xdisc %d' % k]
+            elif how < 0.5: ops += ['xclose %d' % k, 'xrecv %d %s' % (k, hx('p late\r\n')), 'pass', 'xconn %d' % k, 'xrecv %d %s' % (k, hx('history\r\n')), 'xdisc %d' % k]
+            elif how < 0.6: ops += ['xclose %d' % k, 'xconn %d' % k] + ['pass', 'xdisc %d' % k]     # (xconn refused: still connected for the service)
+            else: ops += ['pass'] + (['xdisc %d' % k] if rng.random() < 0.3 else [])
+    ops += ['pass', 'sel 0', 'open 1', 'recv ' + hx('history\r\n')]
+    return ops
+
+
+def gen_faults(rng):
+    """the socket of a telnet / raw-TCP client takes the service's output in short counts, answers EAGAIN, or fails hard
+    (EPIPE) while commands with long outputs run; the client closes its end while output is pending"""
+    k = rng.choice([4, 5, 6])
+    ops = ['mkdir', 'mkfunc s:' + hx('x' * 40), 'mount 0 1 ' + hx('dir'), 'mount 1 2 ' + hx('f'), 'mount 0 2 ' + hx('p'), 'xconn %d' % k]
+    if k < 6: ops.append('xrecv %d %s' % (k, 'fffd01'))
+    for _ in range(rng.randrange(3, 10)):
+        r = rng.random()
+        if r < 0.35: ops.append('wfault %d %d' % (k, rng.choice([0, 1, 1, 2, 2, 3])))
+        line = rng.choice(['help', 'tree', 'ls', 'p a b', 'history', 'help;tree;ls;p', 'abc\x1b[D\x1b[Dx\x7f', '!!', 'exit'])
+        data = line.encode('latin1') + b'\r\n'
+        ops += ['xrecv %d %s' % (k, hx(sg)) for sg in (cut(rng, data) if rng.random() < 0.3 else [data])]
+        r = rng.random()
+        if r < 0.12: ops.append('pass')
+        elif r < 0.18:
+            ops += ['xclose %d' % k, 'xrecv %d %s' % (k, hx('tree;exit\r\n')), 'pass', 'xconn %d' % k]
+    ops += ['wfault %d 0' % k, 'xrecv %d %s' % (k, hx('history\r\n')), 'pass']
     return ops
 
 
@@ -461,6 +521,7 @@ def gen(rng, tier):
     yield ['recv 00', 'open 4', 'open 1', 'open 1', 'recv 0g', 'opt 9', 'mount 0 7 61', 'rmnode 0', 'frob', 'trecv 00', 'tconn', 'tconn',
            'tdisc x', 'rsend', 'winsz 70000 1', 'umount 3 61', 'recv', 'sel 4', 'sel 1', 'recv 00', 'xconn 3', 'xconn 7', 'xrecv 4 00',
            'xconn 4', 'xconn 4', 'xdisc 5', 'srecv 00', 'sstop', 'split', 'split 0', 'sstart', 'sstart', 'teardown', 'xrecv 4 00',
+           'wfault 4 1', 'xclose 4', 'wfault 3 1', 'xconn 5', 'wfault 5 4', 'wfault 5 3', 'xclose 5', 'xclose 5', 'wfault 5 0', 'sstart', 'pass', 'xconn 5',
            'depth 4', 'depth 1', 'mkfunc x', 'mkfunc f:0g', 'mkfunc e e e e e e e', 'mkfunc s:- e f:61']
     # the repaired defects, minimal (also in corpus/C13)
     yield ['open 0', 'recv ' + hx('exit;exit\r\n'), 'pass']
@@ -476,11 +537,20 @@ def gen(rng, tier):
     yield ['xconn 6', 'xconn 5', 'open 1', 'recv ' + hx('exit\r\n'), 'xrecv 6 ' + hx('exit\r\n'), 'xrecv 5 ' + hx('pwd\r\n'), 'passdown', 'xconn 6']
     yield ['mkfunc e', 'mount 0 1 ' + hx('p'), 'xconn 6', 'xrecv 6 ' + hx('p\r\n'), 'teardown', 'open 0']
     yield ['mkfunc e', 'mount 0 1 ' + hx('p'), 'xconn 4', 'xrecv 4 ' + hx('p;exit\r\n'), 'passdown']
+    # a stale exit task and the successor of its session in the same pooled SessionContext
+    yield ['open 0', 'recv ' + hx('exit\r\n'), 'close', 'open 1', 'recv ' + hx('pwd\r\n'), 'pass', 'recv ' + hx('history\r\n'), 'recv ' + hx('exit\r\n'), 'pass', 'open 0', 'pass']
     # several sessions ended in one pass: in the order their exit tasks were queued
     yield ['open 0', 'sel 1', 'open 1', 'sel 2', 'open 0', 'recv ' + hx('exit\r\n'), 'sel 0', 'recv ' + hx('exit\r\n'), 'sel 1', 'recv ' + hx('pwd;exit\r\n'), 'pass']
     # re-entrant use: '!!' re-run of a shorter line while a handler feeds a key; a stored '!!' line
     yield ['depth 0', 'mkfunc f:' + hx('x'), 'mount 0 1 ' + hx('p'), 'open 0', 'recv ' + hx('p\r\n'), 'depth 1', 'recv ' + hx('!!     \r\n')]
     yield ['depth 1', 'mkfunc f:' + hx('\r\n!!'), 'mount 0 1 ' + hx('p'), 'open 0', 'recv ' + hx('p\r\n'), 'recv ' + hx('history\r\n'), 'recv ' + hx('!!\r\n')]
+    # a sub-negotiation whose payload length is on both sides of 2^16 (onRecvSub passes it to a uint16_t parameter of the
+    # trace helper): nothing may be read or consumed differently
+    for ln in ([65532, 65536] if tier == 'quick' else [65531, 65532, 65533, 65535, 65536, 65537, 70000, 131072]):
+        yield ['tconn', 'trecv ' + hx(b'\xff\xfa\x18' + b'a' * ln + b'\xff\xf0' + b'xy'), 'trecv ' + hx(b'\xff\xfa\x1f\x00\x50\x00\x18' + b'b' * ln), 'trecv fff07a']
+    if tier != 'quick':
+        # an edit line longer than 2^16 characters with cursor movement (cursor / sizes are size_t; the model is quadratic: thorough only)
+        yield ['open 0', 'recv ' + hx(b'a' * 65600 + b'\x1b[1~b\x1b[4~c\x1b[D\x7f\r\n'), 'recv ' + hx('history\r\n')]
     for _ in range(n):
         yield gen_shell(rng, rng.choice([2, 4, 8, 14]))
     for _ in range(n // 2):
@@ -501,6 +571,10 @@ def gen(rng, tier):
         yield gen_split(rng)
     for _ in range(n):
         yield gen_nested(rng)
+    for _ in range(n // 2):
+        yield gen_reuse(rng)
+    for _ in range(n // 2):
+        yield gen_faults(rng)
 
 
 def nontrivial(ops, model_lines):
@@ -525,7 +599,9 @@ RULE = ('op files from props/C13/plugin.py gen(): shell sessions over random nod
         'history walks, history references with boundary/huge/negative/malformed integers, exit sequences, loop passes), '
         'hostile byte streams, telnet/raw-TCP byte streams in random segmentations, several interleaved sessions on one terminal '
         '(4 recording connections, 2 telnet clients, 1 raw-TCP client, the stdio service; connects/disconnects/reconnects, exit, '
-        'teardown without draining, teardown inside the loop pass that runs the exit tasks), command handlers that act on their own session while the command executes (send, feed keys/lines incl. Enter, '
+        'teardown without draining, teardown inside the loop pass that runs the exit tasks; slots re-opened after close/exit so that pooled '
+        'session contexts and cabinet cells are reused while stale exit / disconnect tasks are queued; the kernel answering write() on a '
+        'telnet/raw-TCP client socket with short counts, EAGAIN or EPIPE; clients closing their end unannounced with output pending), command handlers that act on their own session while the command executes (send, feed keys/lines incl. Enter, '
         '!!, !n, exit into the same session to nesting depth 0-3, end the session; histories near the 20-line limit), directed built-in command cases over cyclic trees and deleted nodes, direct SplitCmdline calls; non-trivial = '
         'the model run takes a mid-line edit, a history walk, a history reference, a full-history store, tree/user/exit command, '
         'a cycle/deleted-node branch of a built-in, output from at least two sessions, a split with >= 2 arguments or a failure, '
@@ -541,12 +617,19 @@ TRUSTED = ['model lean/TboxModel/C13/Model.lean is hand-written from modules/ter
            '(termios calls fail harmlessly on a pipe)',
            'output lines of one op are grouped by connection: sessions on the recording connection are compared in chronological order '
            '(e.g. the order in which a loop pass ends them); different socket/pipe clients have no mutual order',
-           'string constants (lean/TboxModel/C13/Msgs.lean) are transcribed by hand; a changed message text shows up as a P-divergence']
+           'string constants (lean/TboxModel/C13/Msgs.lean) are transcribed by hand; a changed message text shows up as a P-divergence',
+           'write() on the server end of a client socket is interposed in the harness (op wfault: short counts 1-3 bytes, EAGAIN on every other '
+           'call, EPIPE); what BufferedFd queues is flushed at the end of the op by the calls its write event would make; an unannounced close '
+           '(op xclose) is found by the real read event of the next real loop pass (epoll)',
+           'the reference terminal of C13_screen_matches_editor (Spec.lean Scr: one unbounded row, BS/CR/LF, ESC [ C, ESC [ D) is a model of a '
+           'VT100-style terminal without wrapping; the theorem bounds the columns used so that the no-wrap assumption is a hypothesis on the window width']
 ASSUMPTIONS = ['the host program never deletes the root node',
                'command handlers act on their own session only through Session::send/endSession and Terminal::onRecvString (scripted in the '
                'harness), nest to a bounded depth, do not modify the node tree and do not delete the session',
                'isprint/islower behave as in the C locale (the scanner table is dumped under the harness locale)',
                'stdio segments are at most 512 bytes (one read per loop pass); pipe writes of the service never block',
+               'a client that closed its end unannounced is noticed in the next loop pass (not while the stdio service is running in the harness: kept apart)',
+               'C13_screen_matches_editor: echo mode on, window wider than prompt + longest line (no wrapping), terminal as modelled by Scr',
                'memory safety below index logic is observed by ASan/UBSan on the implementation only']
 LEVEL_TEXT = ('Lean 4 theorems over a hand-written model of the terminal shell (line editor refines a zipper reference editor for every key '
               'sequence; one prompt per Enter; history = last 20 stored lines; !n/!-n/!! address exactly the specified entry for every '
